@@ -1,4 +1,4 @@
-CONSTANTS MaxDepth = 2  SharedEnv = FALSE  NoEnv = FALSE  QualSpecial = FALSE
+CONSTANTS MaxDepth = 2  SharedEnv = FALSE  NoEnv = FALSE  QualSpecial = FALSE  NestShares = FALSE
 SPECIFICATION Spec
 INVARIANT EvalAgrees
 INVARIANT QuotedData
